@@ -15,6 +15,7 @@
 #include <fcppt/container/buffer/to_raw_vector.hpp>
 #include <fcppt/container/raw_vector/comparison.hpp>
 #include <fcppt/container/raw_vector/object.hpp>
+#include <fcppt/container/dynamic_array.hpp>
 #include <fcppt/io/read_chars.hpp>
 #include <fcppt/optional/object.hpp>
 #include <fcppt/optional/maybe.hpp>
@@ -115,11 +116,13 @@ std::pair<long, long> locate(T const *t)
 
 using rv = fcppt::container::raw_vector::object<int, talloc<int>>;
 using buf = fcppt::container::buffer::object<int, talloc<int>>;
+using dyn = fcppt::container::dynamic_array<int, talloc<int>>;
 
 constexpr int NV = 3;
 constexpr int NB = 2;
 std::optional<rv> vs[NV + 1];
 std::optional<buf> bs[NB + 1];
+std::optional<dyn> da; // one dynamic_array slot
 
 // input-iterator seam (single pass)
 struct input_it
@@ -190,7 +193,15 @@ std::string state_json()
     }
     bsj.el_raw(o.str());
   }
-  return "\"vs\":" + vsj.str() + ",\"bs\":" + bsj.str();
+  vj::J dj;
+  dj.kv("live", da.has_value());
+  if (da.has_value())
+  {
+    auto loc = locate(da->data());
+    std::vector<int> cells(da->data(), da->data_end());
+    dj.kv("size", da->size()).kv("dist", static_cast<long>(da->data_end() - da->data())).kv("blk", loc.first).kv("off", loc.second).kv("cells", cells);
+  }
+  return "\"vs\":" + vsj.str() + ",\"bs\":" + bsj.str() + ",\"da\":" + dj.str();
 }
 
 int arg_value(Op const &op, rv &v) { return op.alias >= 0 ? 0 : static_cast<int>(op.x); }
@@ -338,6 +349,14 @@ void exec(Op const &op)
   {
     vs[op.o2].emplace(fcppt::container::buffer::to_raw_vector(std::move(B(op.o))));
   }
+  else if (o == "dctor") da.emplace(static_cast<std::size_t>(op.n));
+  else if (o == "ddestroy") da.reset();
+  else if (o == "dfill")
+  {
+    // write every cell through data(), the judge reads them back through data()..data_end()
+    int *p = da->data();
+    for (std::size_t i = 0; i < da->size(); ++i) p[i] = static_cast<int>(op.x + static_cast<long>(i));
+  }
   else
   {
     std::fprintf(stderr, "unknown op %s\n", o.c_str());
@@ -352,6 +371,7 @@ void reset_all()
 {
   for (int i = 1; i <= NV; ++i) vs[i].reset();
   for (int i = 1; i <= NB; ++i) bs[i].reset();
+  da.reset();
 }
 
 void begin_history(long h)
@@ -435,7 +455,7 @@ bool gen(vj::Rng &r, Op &op)
       int const bb = 1 + static_cast<int>(r.below(NB));
       bool const lb = bs[ba].has_value();
       op.o = ba;
-      int const w2 = static_cast<int>(r.below(12));
+      int const w2 = static_cast<int>(r.below(15));
       switch (w2)
       {
       case 0: if (lb) continue; op.op = "bctor"; op.n = static_cast<long>(r.below(6)); return true;
@@ -452,6 +472,9 @@ bool gen(vj::Rng &r, Op &op)
       case 9: if (!lb || bb == ba || !bs[bb].has_value()) continue; op.op = r.coin() ? "bmove_assign" : "bswap"; op.o2 = bb; return true;
       case 10:
         if (!lb || vs[a].has_value()) continue; op.op = "to_raw_vector"; op.o2 = a; return true;
+      case 11: if (da.has_value()) continue; op.op = "dctor"; op.o = 0; op.n = static_cast<long>(r.below(7)); return true;
+      case 12: if (!da.has_value()) continue; op.op = "dfill"; op.o = 0; return true;
+      case 13: if (!da.has_value()) continue; op.op = "ddestroy"; op.o = 0; return true;
       default: if (!lb || r.below(3) != 0) continue; op.op = "bdestroy"; return true;
       }
     }
